@@ -5,37 +5,58 @@ import (
 	"grog/internal/hashing"
 	"grog/internal/proto/gen"
 	"sort"
-
-	"google.golang.org/protobuf/proto"
+	"strconv"
 )
 
-func getOutputHash(outputs []*gen.Output) (string, error) {
-	if len(outputs) == 0 {
-		return "", nil
+// outputIdentity describes what a dependant can observe of a single output: its kind,
+// where it is, what it contains and - for files - whether it is executable.
+// Both the cached path (getOutputHash) and the no-cache path (GetNoCacheOutputHash) build the
+// output hash from these identities so that a target gets the same output hash for the same
+// outputs no matter whether its result is written to the cache or not.
+func outputIdentity(kind string, identifier string, contentDigest string, isExecutable bool) string {
+	identity := ""
+	for _, field := range []string{kind, identifier, contentDigest, strconv.FormatBool(isExecutable)} {
+		identity += strconv.Itoa(len(field)) + ":" + field
 	}
+	return identity
+}
 
-	marshalOptions := proto.MarshalOptions{Deterministic: true}
-	// Calculate combined hash
-	digests := make([]string, 0, len(outputs))
-	for _, output := range outputs {
-		var digest string
-		data, err := marshalOptions.Marshal(output)
-		if err != nil {
-			return "", fmt.Errorf("failed to marshal output: %w", err)
-		}
-		digest = hashing.HashBytes(data)
-		digests = append(digests, digest)
+// hashOutputIdentities combines the identities of all outputs of a target into its output hash.
+func hashOutputIdentities(identities []string) string {
+	if len(identities) == 0 {
+		return ""
 	}
 
 	hasher := hashing.GetHasher()
-	// Sort digests to ensure a consistent order
-	sort.Sort(sort.StringSlice(digests))
-	for _, digest := range digests {
-		_, err := hasher.WriteString(digest)
-		if err != nil {
-			return "", err
+	// Sort identities to ensure a consistent order
+	sort.Strings(identities)
+	for _, identity := range identities {
+		_, _ = hasher.WriteString(strconv.Itoa(len(identity)) + ":" + identity)
+	}
+	return hasher.SumString()
+}
+
+func getOutputHash(outputs []*gen.Output) (string, error) {
+	identities := make([]string, 0, len(outputs))
+	for _, output := range outputs {
+		switch outputKind := output.GetKind().(type) {
+		case *gen.Output_File:
+			file := outputKind.File
+			identities = append(identities, outputIdentity("file", file.GetPath(), file.GetDigest().GetHash(), file.GetIsExecutable()))
+		case *gen.Output_Directory:
+			directory := outputKind.Directory
+			identities = append(identities, outputIdentity("dir", directory.GetPath(), directory.GetTreeDigest().GetHash(), false))
+		case *gen.Output_DockerImage:
+			image := outputKind.DockerImage
+			contentDigest := image.GetManifestDigest().GetHash()
+			if contentDigest == "" {
+				contentDigest = image.GetImageId()
+			}
+			identities = append(identities, outputIdentity("docker", image.GetLocalTag(), contentDigest, false))
+		default:
+			return "", fmt.Errorf("unknown output kind: %T", output.GetKind())
 		}
 	}
 
-	return hasher.SumString(), nil
+	return hashOutputIdentities(identities), nil
 }
